@@ -111,6 +111,7 @@ def fresh(reactor, flags, track, pool):
     pickled, cs_untracked = base(reactor, flags)
     o, r = pickle.loads(pickled)
     o.reattach(r, o.cs if track else cs_untracked)
+    quiet()
     if not track:
         r.core.setOptionsFromCs(o.cs)  # the `trackAssems` setting reaches the core through this public hook
     if not pool:
@@ -329,10 +330,15 @@ def verify(cx, prefix=""):
         sorted(set(fs_b))[:6])
     gone_a = {id(a) for a in cx.m_gone}
     gone_b = {id(b) for a in cx.m_gone for b in cx.m_blocks[id(a)]}
-    stale_a = [n for n, a in abn.items() if id(a) in gone_a]
-    stale_b = [n for n, b in bbn.items() if id(b) in gone_b]
+    stale_a = [n for n, a in abn.items() if id(a) in gone_a and a.getName() == n]
+    stale_b = [n for n, b in bbn.items() if id(b) in gone_b and b.getName() == n]
+    old_a = [n for n, a in abn.items() if id(a) in gone_a and a.getName() != n]
+    old_b = [n for n, b in bbn.items() if id(b) in gone_b and b.getName() != n]
     chk(not stale_a, f6 + "lookups.assembliesByName.stale", "assembliesByName still returns an assembly that was removed for good", stale_a[:6])
     chk(not stale_b, f6 + "lookups.blocksByName.stale", "blocksByName still returns a block of an assembly that was removed for good", stale_b[:6])
+    chk(not old_a, "lookups.assembliesByName.stale-under-old-name", "assembliesByName still returns, under a former name, an assembly that was removed for good", old_a[:6])
+    chk(not old_b, "lookups.blocksByName.stale-under-old-name",
+        "blocksByName still returns, under the name it had before its new assembly was renumbered, a (stationary) block of an assembly that was removed for good", old_b[:6])
     STATS["stale_old_name_keys_seen"] += sum(1 for n, b in bbn.items() if b.getName() != n and id(b) not in gone_b)
 
     # contents
@@ -722,6 +728,23 @@ def refusal_probes():
             finish_outage(cx, fh, script)
 
 
+class muted:
+    """armi prints its event banners to fd 1 at every verbosity; keep stdout for the result line."""
+
+    def __enter__(self):
+        sys.stdout.flush()
+        self.saved = os.dup(1)
+        null = os.open(os.devnull, os.O_WRONLY)
+        os.dup2(null, 1)
+        os.close(null)
+
+    def __exit__(self, *exc):
+        sys.stdout.flush()
+        os.dup2(self.saved, 1)
+        os.close(self.saved)
+        return False
+
+
 # ----------------------------------------------------------------------------------------------- main
 def configs(reactor):
     flagsets = SMALL_FLAGS if reactor == "small" else HEX_FLAGS
@@ -745,10 +768,20 @@ def main():
         if seed is None:
             print(json.dumps({"result": "error", "why": "replay needs ops[0] == ['seq_seed', seed, nops] (random sequences only)"}))
             return
-        sequence(rp["reactor"], rp["flags"], rp["track"], rp["pool"], seed, nops)
+        with muted():
+            sequence(rp["reactor"], rp["flags"], rp["track"], rp["pool"], seed, nops)
         print(json.dumps({"result": "fail" if B.violations else "pass", "violations": B.violations}, default=str))
         return
 
+    with muted():
+        campaign()
+    B.extra.update(STATS)
+    B.extra["violation_counts"] = _COUNTS
+    B.extra["configs"] = {"small": len(configs("small")), "hex": len(configs("hex"))}
+    B.finish(exhaustive=False)
+
+
+def campaign():
     n_small = 600 if THOROUGH else 40
     n_hex = 500 if THOROUGH else 36
     small_cfg, hex_cfg = configs("small"), configs("hex")
@@ -767,10 +800,6 @@ def main():
     for n in range(n_hex):
         fl, track, pool = hex_cfg[n % len(hex_cfg)]
         sequence("hex", fl, track, pool, B.rng.randrange(1 << 30), B.rng.randint(2, MAXOPS))
-    B.extra.update(STATS)
-    B.extra["violation_counts"] = _COUNTS
-    B.extra["configs"] = {"small": len(small_cfg), "hex": len(hex_cfg)}
-    B.finish(exhaustive=False)
 
 
 if __name__ == "__main__":
